@@ -646,6 +646,12 @@ def run_dynamic(impl, src, roles, check_operators=True):
                 problems.append('`T(%d, ..) and/or ..` did not execute through ag__.and_/or_' % k)
         if role == 'while-test' and not e[3]:
             problems.append('`while T(%d, ..)` test evaluated outside ag__.while_stmt' % k)
+    try:
+        surv = survivors(observe(ast.parse(code), output=True), False)
+    except SyntaxError:
+        surv = []
+    for o in surv:
+        problems.append('native %s (under %s.%s) in the generated code' % (o[0], o[2], o[3]))
     if problems:
         return 'routing', {'problems': problems[:5], 'generated_code': code}
     if [e[1] for e in tl] != [e[1] for e in tr0.log] or got != want:
